@@ -172,7 +172,7 @@ struct RGen { std::mt19937_64 rng; uint64_t R(uint64_t n) { return rng() % n; }
     void val(JW &w, char t) { w.obj().kstr("t", std::string(1, t)).key("v");
         switch (t) {
             case 'i': { static const uint32_t b[] = {0, 1, 0xffffffffu, 0x7fffffffu, 0x80000000u, 0xfffffff5u, 0xffffffedu, 100, 2017}; w.limbs32(R(3) ? (uint32_t)rng() : b[R(9)]); break; }
-            case 'c': { uint32_t c = R(4) == 0 ? (uint32_t)"\n\t\\'\"%\a\b"[R(8)] : 32 + (uint32_t)R(95); w.limbs32(c); break; }
+            case 'c': { uint32_t c = R(4) == 0 ? (uint32_t)"\n\t\\'\"%\a\b"[R(9)] : 32 + (uint32_t)R(95); /* [8] is the terminating NUL: the char 0 */ w.limbs32(c); break; }
             case 'r': w.limbs32((uint32_t)rng()); break;
             case 'f': { uint32_t u; do { u = (uint32_t)rng(); } while ((u & 0x7f800000u) == 0x7f800000u); if (R(4) == 0) { static const float s[] = {0.f, 1.f, -1.5f, 0.1f, 3.4028235e38f, 1.4e-45f, 1e10f, -0.f}; float f = s[R(8)]; memcpy(&u, &f, 4); } w.limbs32(u); break; }
             case 'd': { uint64_t u; do { u = rng(); } while ((u & 0x7ff0000000000000ull) == 0x7ff0000000000000ull); if (R(4) == 0) { static const double s[] = {0., 1., -1.5, 0.1, 1.7976931348623157e308, 4.9e-324, 1e10, 0.81}; double d = s[R(8)]; memcpy(&u, &d, 8); } w.limbs64(u); break; }
